@@ -126,8 +126,10 @@ def generic_replay(path, h):
     d = json.load(open(path))
     cfg = d['witness']['cfg']
     hist = [tuple(e) for e in d['witness']['history']]
-    def one():
+    def one(warm=False):
         explore.HARNESS = h
+        if warm:
+            one(False)          # another agent instance lives and dies in this process first
         w = W.AgentWorld(cfg)
         mon = h.Monitor(cfg, w)
         log = []
@@ -150,4 +152,22 @@ def generic_replay(path, h):
         print('t=%-10s %-28s -> %-12s %s' % (t, ev, st, list(aobs)))
     print('violation keys along the replay:', outs[0][1])
     print('expected key:', d['key'])
-    return 1 if d['key'] in outs[0][1] else 0
+    if d['key'] in outs[0][1]:
+        return 1
+    cold = set(outs[0][1])
+    outs = report.twice(one, True)
+    if outs[0] != outs[1]:
+        print('HARNESS-ERROR: replay is not deterministic')
+        return 2
+    if d['key'] not in outs[0][1] and set(outs[0][1]) - cold:
+        # the recorded key came out of a worker that had run other histories before this one; which key comes out depends on
+        # what ran before, that one does is the point
+        print('violation keys after a warm-up instance:', sorted(set(outs[0][1]) - cold)[:6])
+        print('the history is clean in a fresh process and violates the property once another agent instance has run in the same '
+              'process (state kept outside the instance: module / class level, caches)')
+        return 1
+    if d['key'] in outs[0][1]:
+        print('the history alone does not reproduce the violation; it does when another agent instance has run the same history in '
+              'the same process before (state kept outside the instance: module / class level, caches)')
+        return 1
+    return 0
